@@ -135,9 +135,24 @@ def rule_prims(ctx: Ctx):
         for node in ast.walk(fn.node):
             for ch in ast.iter_child_nodes(node):
                 parents[ch] = node
+        # local aliases `q = self.<queue>`: every use of the alias is classified like a use of the attribute
+        aliases = set()
         for node in own_nodes(fn.node):
-            if not (isinstance(node, ast.Attribute) and node.attr == k.queue_attr):
-                continue
+            if isinstance(node, ast.Assign) and len(node.targets) == 1 and isinstance(node.targets[0], ast.Name) and \
+                    isinstance(node.value, ast.Attribute) and node.value.attr == k.queue_attr:
+                aliases.add(node.targets[0].id)
+        uses = []
+        for node in own_nodes(fn.node):
+            if isinstance(node, ast.Attribute) and node.attr == k.queue_attr:
+                par = parents.get(node)
+                if isinstance(par, ast.Assign) and par.value is node and len(par.targets) == 1 and isinstance(par.targets[0], ast.Name):
+                    n += 1
+                    rep.ok("C06.prims", fn.loc(node), "local alias of the queue (its uses are classified below)")
+                    continue
+                uses.append(node)
+            elif isinstance(node, ast.Name) and node.id in aliases and isinstance(node.ctx, ast.Load):
+                uses.append(node)
+        for node in uses:
             n += 1
             par = parents.get(node)
             where = fn.loc(node)
